@@ -1438,6 +1438,10 @@ func (v *valmon) evaluate(cs consensus.State, orig types.Block, mt mut, h uint64
 		c = math.Max(float64(v.cal.cpuNs)/float64(v.cal.bytes), 1)
 	}
 	bd := int64(math.Max(float64(cpuFloorNs), cpuMargin*c*float64(size)))
+	if cpu <= bd {
+		v.cal.cpuNs += cpu
+		v.cal.bytes += int64(size)
+	}
 	if !out.panicked && cpu > bd {
 		runtime.GC()
 		c0 = threadCPU()
